@@ -27,10 +27,15 @@ def unhexB : Bytes → Option Bytes
     pure (UInt8.ofNat (x * 16 + y) :: t)
   | _ => none
 
-def decB (b : Bytes) : Option Nat := parseDigits b
+/-- the harness parses numbers with `strconv.ParseInt(s, 10, 64)`: magnitudes up to 2^63-1 -/
+def decB (b : Bytes) : Option Nat :=
+  (parseDigits b).bind fun n => if n ≤ 9223372036854775807 then some n else none
+
+/-- upper bound check as written in the harness's script parser -/
+def decLe (max : Nat) (b : Bytes) : Option Nat := (decB b).bind fun n => if n ≤ max then some n else none
 
 def intB : Bytes → Option Int
-  | 45 :: r => (decB r).map fun n => -(n : Int)
+  | 45 :: r => (parseDigits r).bind fun n => if n ≤ 9223372036854775808 then some (-(n : Int)) else none
   | r => (decB r).map fun n => (n : Int)
 
 def hexNat (b : Bytes) : Option Nat :=
@@ -108,7 +113,13 @@ def parseErr : List Bytes → Option Err
     | _ => none
   | node :: rest => do
     let inner ← parseErr rest
-    match node with
+    -- "x<node>": decorate and throw the result away; decorators are pure, the error is unchanged
+    -- (the node must still be well-formed)
+    let (node, discard) := match node with
+      | 120 :: n => (n, true)
+      | n => (n, false)
+    let keep := fun (e : Err) => if discard then inner else e
+    (fun (r : Option Err) => r.map keep) <| match node with
     | 67 :: hx => (unhexB hx).map fun x => .code x inner
     | 83 :: hx => (unhexB hx).map fun x => .sev x inner
     | 72 :: hx => (unhexB hx).map fun x => .hint x inner
@@ -117,6 +128,7 @@ def parseErr : List Bytes → Option Err
     | 70 :: r => match splitBy (c ':') r with
       | [f, l, fn] => do
         let f ← unhexB f; let l ← intB l; let fn ← unhexB fn
+        if l < -2147483648 ∨ l > 2147483647 then none else
         pure (.source f l fn inner)
       | _ => none
     | 87 :: r => match splitBy (c ':') r with
@@ -137,14 +149,14 @@ def parseOp (_ : Nat) (b : Bytes) : Option (Op × Bool) :=
     | 99 :: 58 :: r => (unhexB r).map .complete
     | [101] => some .empty
     | [119] => some .written
-    | 103 :: 58 :: r => (decB r).map .copyIn
+    | 103 :: 58 :: r => (decLe 1048576 r).map .copyIn
     | [107] => some .copyRead
-    | 75 :: r => (decB r).map .copyLoop
+    | 75 :: r => (decLe 65536 r).map .copyLoop
     | [66] => some .binNew
     | [98] => some .binRead
-    | 65 :: r => (decB r).map .binLoop
+    | 65 :: r => (decLe 65536 r).map .binLoop
     | 115 :: 58 :: r => match splitBy (c ',') r with
-      | [o, i] => do let o ← decB o; let i ← decB i; pure (.scan o i)
+      | [o, i] => do let o ← decLe 4294967295 o; let i ← decLe 1048576 i; pure (.scan o i)
       | _ => none
     | _ => none
   op.map fun o => (o, guard)
@@ -215,7 +227,7 @@ def parseStmt (q : Bytes) (b : Bytes) : Option Stmt :=
   | cols :: ps :: ops :: ret :: _ => do
     let cols ← parseList parseCol (c ',') cols
     let params ← if ps = [80] then some (parseParameters q)
-                 else parseList (fun _ => decB) (c ',') ps
+                 else parseList (fun _ => decLe 4294967295) (c ',') ps
     let ops ← parseList parseOp (c ';') ops
     let ret ← if ret = ascii "ok" then some none
               else match ret with
